@@ -45,7 +45,12 @@ func SearchUnrotatedMetricsBlock(mQuery *structs.MetricsQuery, segTsidInfo *tsid
 	mSegment.rwLock.RLock()
 	defer mSegment.rwLock.RUnlock()
 
+	// Block numbers start again at 0 in every segment: the current block is the block this request was built
+	// for only if the request was built for the segment that is open now.
 	_, ok := searchReq.UnrotatedBlkToSearch[mSegment.mBlock.mBlockSummary.Blknum]
+	if ok && searchReq.MetricsKeyBaseDir != mSegment.keyBaseDir() {
+		ok = false
+	}
 	if !ok {
 		// Since the current unrotated block is not in the search request unrotated block list,
 		// it is assumed that the block is rotated and the search should be done in the rotated block.
